@@ -84,13 +84,18 @@ func (self AnalyzedTriggerStatement) Type() Type { return NewNullType(self.Range
 type AnalyzedTypeDefinition struct {
 	LhsIdent string
 	RhsType  Type
+	IsPub    bool
 	Range    errors.Span
 }
 
 func (self AnalyzedTypeDefinition) Kind() AnalyzedStatementKind { return TypeDefinitionStatementKind }
 func (self AnalyzedTypeDefinition) Span() errors.Span           { return self.Range }
 func (self AnalyzedTypeDefinition) String() string {
-	return fmt.Sprintf("type %s = %s;", self.LhsIdent, self.RhsType)
+	pub := ""
+	if self.IsPub {
+		pub = "pub "
+	}
+	return fmt.Sprintf("%stype %s = %s;", pub, self.LhsIdent, self.RhsType)
 }
 func (self AnalyzedTypeDefinition) Type() Type { return NewNullType(self.Range) }
 
@@ -101,6 +106,7 @@ type AnalyzedLetStatement struct {
 	VarType                    Type
 	NeedsRuntimeTypeValidation bool // is set to `true` if the rhs is of type `any`
 	OptType                    Type
+	IsPub                      bool // only globals can be `pub`
 	Range                      errors.Span
 }
 
@@ -114,7 +120,12 @@ func (self AnalyzedLetStatement) String() string {
 		optType = fmt.Sprintf(": %s", self.OptType)
 	}
 
-	return fmt.Sprintf("let %s%s = %s;", self.Ident, optType, self.Expression)
+	pub := ""
+	if self.IsPub {
+		pub = "pub "
+	}
+
+	return fmt.Sprintf("%slet %s%s = %s;", pub, self.Ident, optType, self.Expression)
 }
 func (self AnalyzedLetStatement) Type() Type { return NewNullType(self.Range) }
 
